@@ -26,16 +26,16 @@ func At(t int64) Step   { return Step{SleepUntil: t} }
 
 // EngSpec describes a concurrent scenario on an engine-only node.
 type EngSpec struct {
-	Name    string
-	Cfg     hapi.Config
-	T0      int64      // exploration starts here
-	Setup   []Step     // executed by the root before exploration (client "s"), each followed by quiescence
-	Threads [][]Step   // client threads "a","b","c",...
-	DrainTo int64      // after the threads are done: advance to this instant (0 = T0+3s)
-	Unlock  []hapi.Cmd // issued sequentially after the first drain (client "s"), then a second drain
-	Fine    bool
-	Points  int64
-	Collect bool // run the pool collectors as an extra thread
+	Name     string
+	Cfg      hapi.Config
+	T0       int64      // exploration starts here
+	Setup    []Step     // executed by the root before exploration (client "s"), each followed by quiescence
+	Threads  [][]Step   // client threads "a","b","c",...
+	DrainTo  int64      // after the threads are done: advance to this instant (0 = T0+3s)
+	Unlock   []hapi.Cmd // issued sequentially after the first drain (client "s"), then a second drain
+	Fine     bool
+	Points   int64
+	Collect  bool  // run the pool collectors as an extra thread
 	FinalFor int64 // length of the final drain after Unlock (default 5s)
 }
 
